@@ -46,12 +46,42 @@ theorem observe_counts {e e' : Enf} {raw : Raw} (h : e.observe raw = .ok e') (hp
     have := h2 hn
     simp [C07.next, hpd, C07.b2n, hn]; omega
 
+/-- the observation the parser loop makes on a raw item: an alias that is about to be replayed is counted
+without the key/value bookkeeping -/
+def obsEnf (enf : Enf) (raw : Raw) : Except Breach Enf :=
+  match raw with
+  | .alias _ => enf.observeAliasReplayed
+  | _ => enf.observe raw
+
+theorem observeAliasReplayed_counts {e e' : Enf} (h : e.observeAliasReplayed = .ok e') (hpd : e.perDocument = false) :
+    e'.perDocument = false ∧ e'.lim = e.lim ∧ e'.report.events = e.report.events + 1 ∧
+      e'.report.events ≤ e.lim.maxEvents ∧ e'.report.nodes = e.report.nodes := by
+  simp only [Enf.observeAliasReplayed] at h
+  split at h
+  · cases h
+  · split at h
+    · cases h
+    · cases h
+      exact ⟨hpd, rfl, rfl, by simp only; omega, rfl⟩
+
+theorem obsEnf_counts {e e' : Enf} {raw : Raw} (h : obsEnf e raw = .ok e') (hpd : e.perDocument = false) :
+    e'.perDocument = false ∧ e'.lim = e.lim ∧ e'.report.events = e.report.events + 1 ∧
+      e'.report.events ≤ e.lim.maxEvents ∧
+      e'.report.nodes = e.report.nodes + (if Spec.isNodeEv raw then 1 else 0) ∧
+      (Spec.isNodeEv raw = true → e'.report.nodes ≤ e.lim.maxNodes) := by
+  cases raw
+  case alias id =>
+    obtain ⟨a, b, c, d, f⟩ := observeAliasReplayed_counts (show e.observeAliasReplayed = .ok e' from h) hpd
+    exact ⟨a, b, c, d, by simpa [Spec.isNodeEv] using f, by simp [Spec.isNodeEv]⟩
+  all_goals exact observe_counts (show e.observe _ = .ok e' from h) hpd
+
 theorem obs_some {enf : Enf} {raw : Raw} {bud : Option Enf} (h : obs (some enf) raw = .ok bud) :
-    ∃ enf', enf.observe raw = .ok enf' ∧ bud = some enf' := by
-  simp only [obs] at h
-  cases ho : enf.observe raw with
-  | error b => rw [ho] at h; cases h
-  | ok e1 => rw [ho] at h; cases h; exact ⟨e1, rfl, rfl⟩
+    ∃ enf', obsEnf enf raw = .ok enf' ∧ bud = some enf' := by
+  have h' : (obsEnf enf raw).map some = .ok bud := by
+    cases raw <;> simpa only [obs, obsEnf] using h
+  cases ho : obsEnf enf raw with
+  | error b => rw [ho] at h'; cases h'
+  | ok e1 => rw [ho] at h'; cases h'; exact ⟨e1, rfl, rfl⟩
 
 /-- the budget after zero or more observed non-node items -/
 def EnfLe (a b : Enf) : Prop :=
@@ -69,7 +99,7 @@ theorem obs_nonnode {enf : Enf} {raw : Raw} {bud : Option Enf} (h : obs (some en
     ∃ enf', bud = some enf' ∧ EnfLe enf enf' ∧ enf.report.events + 1 ≤ enf'.report.events ∧
       enf'.report.events ≤ enf.lim.maxEvents := by
   obtain ⟨enf', ho, rfl⟩ := obs_some h
-  obtain ⟨c1, c2, c3, c4, c5, -⟩ := observe_counts ho hpd
+  obtain ⟨c1, c2, c3, c4, c5, -⟩ := obsEnf_counts ho hpd
   refine ⟨enf', rfl, ⟨c1.trans hpd.symm, c2, by omega, by simp [c5, hn]⟩, by omega, c4⟩
 
 /-- facts preserved by skip steps -/
@@ -127,40 +157,41 @@ theorem Deliver.budget {q p' : Pump} {e : Ev} (h : Deliver q e p') {enf : Enf} (
   | scalar val style anchor tag loc bud hob =>
     rw [hb] at hob
     obtain ⟨enf', ho, rfl⟩ := obs_some hob
-    obtain ⟨c1, c2, c3, c4, c5, c6⟩ := observe_counts ho hpd
+    obtain ⟨c1, c2, c3, c4, c5, c6⟩ := obsEnf_counts ho hpd
     exact ⟨⟨enf', rfl, c1, c2, by omega, c4, .inl ⟨c5, fun _ => c6 rfl⟩⟩, rfl, rfl, rfl⟩
   | seqStart anchor tag loc bud hob =>
     rw [hb] at hob
     obtain ⟨enf', ho, rfl⟩ := obs_some hob
-    obtain ⟨c1, c2, c3, c4, c5, c6⟩ := observe_counts ho hpd
+    obtain ⟨c1, c2, c3, c4, c5, c6⟩ := obsEnf_counts ho hpd
     exact ⟨⟨enf', rfl, c1, c2, by omega, c4, .inl ⟨c5, fun _ => c6 rfl⟩⟩, rfl, rfl, rfl⟩
   | mapStart anchor tag loc bud hob =>
     rw [hb] at hob
     obtain ⟨enf', ho, rfl⟩ := obs_some hob
-    obtain ⟨c1, c2, c3, c4, c5, c6⟩ := observe_counts ho hpd
+    obtain ⟨c1, c2, c3, c4, c5, c6⟩ := obsEnf_counts ho hpd
     exact ⟨⟨enf', rfl, c1, c2, by omega, c4, .inl ⟨c5, fun _ => c6 rfl⟩⟩, rfl, rfl, rfl⟩
   | seqEnd loc bud as fs hob hd =>
     rw [hb] at hob
     obtain ⟨enf', ho, rfl⟩ := obs_some hob
-    obtain ⟨c1, c2, c3, c4, c5, c6⟩ := observe_counts ho hpd
+    obtain ⟨c1, c2, c3, c4, c5, c6⟩ := obsEnf_counts ho hpd
     exact ⟨⟨enf', rfl, c1, c2, by omega, c4, .inl ⟨c5, fun h => by cases h⟩⟩, rfl, rfl, rfl⟩
   | mapEnd loc bud as fs hob hd =>
     rw [hb] at hob
     obtain ⟨enf', ho, rfl⟩ := obs_some hob
-    obtain ⟨c1, c2, c3, c4, c5, c6⟩ := observe_counts ho hpd
+    obtain ⟨c1, c2, c3, c4, c5, c6⟩ := obsEnf_counts ho hpd
     exact ⟨⟨enf', rfl, c1, c2, by omega, c4, .inl ⟨c5, fun h => by cases h⟩⟩, rfl, rfl, rfl⟩
   | placeholder id loc bud hob hc hrec =>
     rw [hb] at hob
     obtain ⟨enf', ho, rfl⟩ := obs_some hob
-    obtain ⟨c1, c2, c3, c4, c5, c6⟩ := observe_counts ho hpd
-    refine ⟨⟨enf', rfl, c1, c2, by omega, c4, .inr ⟨?_, c5⟩⟩, rfl, rfl, rfl⟩
+    obtain ⟨c1, c2, c3, c4, c5, c6⟩ := obsEnf_counts ho hpd
+    have c3' : enf'.aliasOccupiesPosition.report.events = enf.report.events + 1 := c3
+    refine ⟨⟨enf'.aliasOccupiesPosition, rfl, c1, c2, by omega, c4, .inr ⟨?_, c5⟩⟩, rfl, rfl, rfl⟩
     intro hnil
     rw [hnil] at hrec
     simp at hrec
   | replay id bud bud' inj ev hob hc htot hrb =>
     rw [hb] at hob
     obtain ⟨enf1, ho1, rfl⟩ := obs_some hob
-    obtain ⟨c1, c2, c3, c4, c5, c6⟩ := observe_counts ho1 hpd
+    obtain ⟨c1, c2, c3, c4, c5, c6⟩ := obsEnf_counts ho1 hpd
     obtain ⟨enf2, ho2, rfl⟩ := replayBud_some hrb
     obtain ⟨d1, d2, d3, d4, d5, d6⟩ := observe_counts ho2 c1
     rw [isNodeEv_replayRaw] at d5 d6
